@@ -50,8 +50,14 @@ Record cfg := {
   f_keep : bool;      (* storage policy, not a provider flag: Storage.CreateAccessAndRefreshTokens hands the
                          PRESENTED refresh token back as the valid one (non-rotating / sliding refresh
                          tokens) instead of replacing it by a fresh one *)
+  f_aud : option (list string);   (* storage policy: the audience the storage gives every grant
+                         (AuthRequest.GetAudience): None = [the client] (as the example storage), Some l = l,
+                         e.g. a resource server only, several entries, with or without the client *)
   clients : list client
 }.
+
+Definition grant_aud (cf : cfg) (client : string) : list string :=
+  match f_aud cf with None => [client] | Some l => l end.
 
 (* What the caller sends to identify itself - every place the code reads, so that one
    request can present two identities:
@@ -211,6 +217,8 @@ Inductive op :=
 Record tokresp := {
   t_at : nat; t_at_sub : string;
   t_jwt : option string;   (* JWT access token: its client_id claim (no scope claim is written) *)
+  t_at_aud : list string;  (* JWT access token: its aud claim = the audience of the grant, the client only when
+                              the grant has none (oidc.NewAccessTokenClaims); [] for an opaque token *)
   t_rt : option nat;
   t_sub : string; t_aud : list string; t_azp : string; t_nonce : string; t_auth : nat;  (* id_token; t_sub is
      its sub claim - the request's subject whether or not the storage's userinfo mapping asserts one *)
@@ -365,7 +373,7 @@ Definition issue_code (s : st) (q : areq) (c : client) : st * out :=
   let want_rt := string_in "offline_access" (q_scopes q) && has_refresh s c in
   let rid := S (next s) in
   let aid := if want_rt then S rid else rid in
-  let aud := [q_client q] in
+  let aud := grant_aud cf (q_client q) in
   let rest := filter (fun x => negb (Nat.eqb (q_id x) (q_id q))) (reqs s) in
   let cds := filter (fun p => negb (Nat.eqb (snd p) (q_id q))) (codes s) in
   let rts := if want_rt
@@ -375,6 +383,7 @@ Definition issue_code (s : st) (q : areq) (c : client) : st * out :=
   ({| reqs := rest; codes := cds; rtoks := rts; next := aid; ncode := ncode s; norefresh := norefresh s |},
    OTokens {| t_at := aid; t_at_sub := q_sub q;
               t_jwt := if c_jwt c then Some (c_id c) else None;
+              t_at_aud := if c_jwt c then (match aud with [] => [q_client q] | _ => aud end) else [];
               t_rt := if want_rt then Some rid else None;
               t_sub := q_sub q; t_aud := aud_with (q_client q) aud; t_azp := q_client q;
               t_nonce := q_nonce q; t_auth := q_auth q; t_scope := q_scopes q |}).
@@ -399,6 +408,7 @@ Definition issue_refresh (s : st) (t : rtok) (c : client) (scopes : list string)
       next := aid; ncode := ncode s; norefresh := norefresh s |},
    OTokens {| t_at := aid; t_at_sub := r_sub t;
               t_jwt := if c_jwt c then Some (c_id c) else None;
+              t_at_aud := if c_jwt c then (match r_aud t with [] => [r_client t] | _ => r_aud t end) else [];
               t_rt := Some rid;
               t_sub := r_sub t; t_aud := aud_with (r_client t) (r_aud t); t_azp := r_client t;
               t_nonce := ""; t_auth := r_auth t; t_scope := scopes |}).
@@ -560,7 +570,7 @@ Definition code_step (H : string -> string) (cf : cfg) (r : router) (s : st) cr 
 
 Definition no_clients (cf : cfg) : cfg :=
   {| f_post := f_post cf; f_pkjwt := f_pkjwt cf; f_refresh := f_refresh cf; f_reqobj := f_reqobj cf;
-     f_keep := f_keep cf; clients := [] |}.
+     f_keep := f_keep cf; f_aud := f_aud cf; clients := [] |}.
 Definition no_codes (s : st) : st :=
   {| reqs := reqs s; codes := []; rtoks := rtoks s; next := next s; ncode := ncode s; norefresh := norefresh s |}.
 
